@@ -51,6 +51,15 @@ CHECKS = {
  "C13": ("exploration", "runtime monitor: encoding_rs whole-buffer decode / encode oracle over generated documents in all 36 encodings; ordering check of set_encoding in the sink log",
          "Text and comment strings read by handlers are compared with whole-buffer decoding of the ground-truth bytes (malformed sequences, characters split by writes and by the 1024-byte decoder buffer); inserted content with unmappable characters is compared with encoding_rs encode; meta-charset documents check which side of the declaration is decoded how, the number of switches and the position of the sink notification; AsciiCompatibleEncoding::new is checked exhaustively over the 40 encodings.",
          "encoding_rs is the reference for each encoding.", "§5 C13"),
+ "C15": ("exploration", "runtime monitor: child-process fuzz workers (process status as oracle), debug-assertion + overflow-check build, release build and AddressSanitizer build; thread-CPU-time linearity test",
+         "Random / grammar-based / mutated inputs x settings matrix x arbitrary API argument strings x selector strings run in child processes so that panics, aborts, stack exhaustion and sanitizer reports are all observed; pathological sizes run one per process with a CPU-time linearity test; a dead worker's batch is re-run case by case to name the culprit.",
+         "Three known findings (stack exhaustion on pathologically deep selector strings) keyed by the kind of selector.", "§5 C15"),
+ "C17": ("exploration", "differential runtime monitor (Rust-API driver vs C-API driver on mirrored scripts) executed under AddressSanitizer+LeakSanitizer, Miri and valgrind memcheck",
+         "The same generated script is interpreted through the Rust API and exclusively through the exported extern \"C\" entry points with extern \"C\" callbacks; histories (sink bytes, accessor values, error outcomes) must be equal; the header's failure classes must return error codes and set the thread-local last error; create/use/free orders vary; the C-side run is repeated under ASan/LSan (quick), Miri (16 processes, quick) and valgrind (thorough), any report fails the check.",
+         "C symbols reached through the rlib (the cdylib cannot be built offline); Miri's aliasing model is off because of servo_arc (third party).", "§5 C17"),
+ "C18": ("exploration", "runtime monitor: sequential-vs-concurrent-vs-migrating differential with an in-flight counter, executed natively, under ThreadSanitizer and (thorough) under Miri's data-race detector",
+         "Groups of rewrites are run sequentially twice, then concurrently on barrier-released threads with random yields, then with a send::HtmlRewriter moved to a new thread for every call; results must be identical; concurrent selector parsing and a barrier-choreographed C last-error ping-pong check isolation; ThreadSanitizer must stay silent.",
+         "A global protected by a lock that does not change results is invisible to this technique.", "§5 C18"),
 }
 
 NOT_YET = {
